@@ -14,7 +14,7 @@ HARNESS_BINS = ["c12", "c16bb"]
 SHRINK_KEEP = ("ohash", "oscore", "bb")
 CLAIMED = True
 RULE = ("cases: histories over 2 clusters, 7 addresses, 3 backend ids, 3 sticky ids of add / re-add (same "
-        "(address,id): config update) / remove-by-address, health-check results with thresholds 1-3 and health "
+        "(address,id): config update) / remove of the backend (id, address) with siblings on the same address, health-check results with thresholds 1-3 and health "
         "reset, connection failures (back-off windows of seeded length) / successes / forced down+waiting states, "
         "clock advances, inc/dec/close of connections incl. unmatched decrements and Closing backends, request "
         "counts, policy changes over the six policies (Maglev with prime tables 2..31 and the production size), "
@@ -438,6 +438,10 @@ class Gen:
 
     def add(self, c, a=None, i=None):
         r = self.rng
+        if a is None and i is None and self.lists[c] and r.random() < 0.15:
+            # a sibling: another backend of the cluster on an address already used (A/B variant), a different id
+            a, i0, _ = r.choice(self.lists[c])
+            i = r.choice([x for x in IDS if x != i0])
         if a is None:
             a = r.choice(self.addrs if r.random() < 0.3 else self.addrs[:4])
         if i is None:
@@ -452,9 +456,15 @@ class Gen:
 
     def remove(self, c):
         r = self.rng
-        a = r.choice([x[0] for x in self.lists[c]]) if self.lists[c] and r.random() < 0.8 else r.choice(self.addrs)
-        self.ops.append(["remove", c, a])
-        self.lists[c] = [x for x in self.lists[c] if x[0] != a]
+        # the backend (id, address): mostly one that is there, sometimes a wrong id on a used address / an unused address
+        if self.lists[c] and r.random() < 0.8:
+            a, i, _ = r.choice(self.lists[c])
+            if r.random() < 0.12:
+                i = r.choice(IDS)
+        else:
+            a, i = r.choice(self.addrs), r.choice(IDS)
+        self.ops.append(["remove", c, i, a])
+        self.lists[c] = [x for x in self.lists[c] if not (x[0] == a and x[1] == i)]
 
     def policy(self, c, kind=None):
         r = self.rng
@@ -561,6 +571,36 @@ def history_case(rng, cid, focus=None):
     return Case(cid, with_oracle(g.ops), {})
 
 
+def sibling_case(rng, cid):
+    """two (or three) backends of one cluster on one address with different ids; one is removed (RemoveBackend names
+    id and address); the others stay in the list and are selected from then on; then a wrong id, then the rest"""
+    g = Gen(rng, conn=False)
+    c = rng.choice([0, 0, 1])
+    g.policy(c, rng.choice(["rr", "rr", "least", "random", "hrw", "maglev"]))
+    a = rng.choice(ADDRS[:6])
+    ids = rng.sample(IDS, rng.choice([2, 2, 3]))
+    for i in ids:
+        g.add(c, a, i)
+    if rng.random() < 0.5:
+        g.add(c)                                    # somebody else in the cluster
+    g.select(c)
+    gone = ids.pop(rng.randrange(len(ids)))
+    g.ops.append(["remove", c, gone, a])
+    g.lists[c] = [x for x in g.lists[c] if not (x[0] == a and x[1] == gone)]
+    for _ in range(3):
+        g.select(c)
+    g.ops.append(["remove", c, gone, a])            # again: nothing left to remove
+    g.ops.append(["remove", c, ids[0], rng.choice([x for x in ADDRS[:6] if x != a])])   # right id, wrong address
+    g.select(c)
+    g.ops.append(["dump"])
+    for i in ids:
+        g.ops.append(["remove", c, i, a])
+        g.lists[c] = [x for x in g.lists[c] if not (x[0] == a and x[1] == i)]
+        g.select(c)
+    g.ops.append(["dump"])
+    return Case(cid, with_oracle(g.ops), {})
+
+
 HC_ADDRS = [10, 11, 12, 13, 14, 15]      # 10..14: scripted servers of the driver, 15: nobody listens
 
 
@@ -648,6 +688,8 @@ def gen_cases(rng, tier):
         out.append(production_case(rng, "m%d" % i))
     for i in range({"quick": 200, "thorough": 6000, "search": 1500}.get(tier, 200)):
         out.append(hc_history(rng, "c%d" % i))
+    for i in range({"quick": 100, "thorough": 3000, "search": 600}.get(tier, 100)):
+        out.append(sibling_case(rng, "s%d" % i))
     return out
 
 
